@@ -296,3 +296,23 @@ Theorem C06_new_map_json_code_is_model : forall (Decode : str -> bool -> res val
     end.
 Proof. exact new_map_json_code_is_model. Qed.
 Print Assumptions C06_new_map_json_code_is_model.
+
+(* ---- marshalJSON and Map.JsonIndent (json.go), translated from the current sources: the models map_json / map_json_indent for
+   ANY behaviour of encoding/json's Encoder.Encode and json.Indent (GenProofs/PureG29.v) *)
+From Mxj Require Import GenProofs.PureG29.
+
+Theorem C06_marshal_json_code_is_model : forall (encode : value -> bool -> res str) st v escapeHTML,
+  fn_marshalJSON encode st v escapeHTML = of_res (EncForms.map_json (encode v escapeHTML)).
+Proof. exact marshal_json_code_is_model. Qed.
+Print Assumptions C06_marshal_json_code_is_model.
+
+Theorem C06_json_indent_code_is_model : forall (indent : str -> str -> str -> res str) (encode : value -> bool -> res str) st mv prefix ind safe,
+  fn_JsonIndent indent (run_marshalJSON encode st) st mv prefix ind safe
+  = of_res (EncForms.map_json_indent (fun b => indent b prefix ind) (encode (VMap mv) (opt_flag safe))).
+Proof. exact json_indent_code_is_model. Qed.
+Print Assumptions C06_json_indent_code_is_model.
+
+Theorem C06_json_code_is_model : forall (encode : value -> bool -> res str) st mv safe,
+  fn_Json (run_marshalJSON encode st) st mv safe = of_res (EncForms.map_json (encode (VMap mv) (opt_flag safe))).
+Proof. exact json_code_is_model. Qed.
+Print Assumptions C06_json_code_is_model.
